@@ -47,6 +47,7 @@ type World struct {
 	mbn              map[*ssa.Function][]*ssa.Return
 	mbnBusy          map[*ssa.Function]bool
 	pinned           map[*ssa.Function]ssa.CallInstruction
+	idxSums          map[*ssa.Function]*idxSummary
 	cbOK             map[*ssa.Function]bool
 	rootsInl         map[*ssa.Function]int
 }
